@@ -528,6 +528,11 @@ def c11_directed(rng, cfg):
     h.drain()
     if r.random() < 0.3:
         h.ops.append(("save",))
+    if r.random() < 0.08:
+        # the restarted process handles a presentation of a new node BEFORE start_persistence() merges the file
+        h.ops.append(("restart_early", f"{r.choice([77, 88, 201])};255;0;0;17;2.0"))
+        h.ops.append(("restart",))
+        return h.ops
     h.ops.append(("restart",))
     if r.random() < 0.3:                    # and once more from the loaded state
         if nodes:
@@ -544,6 +549,16 @@ def c14_directed(rng, cfg, kind=None):
     kinds = [k for k in TAIL_KINDS if not (k == "heartbeat" and h.vi < 2)]
     kind = kind if kind in kinds else r.choice(kinds)
     x = r.random()
+    if x > 0.93:
+        # the restarted process handles a presentation of a NEW node before start_persistence() has merged the
+        # file; then runs on, is stopped and started again: both the restored nodes and the early one are there
+        nodes = seed_network(h)
+        h.drain()
+        h.ops.append(("restart_early", f"{r.choice([77, 88, 201])};255;0;0;17;2.0"))
+        if r.random() < 0.5:
+            h.ops.append(("save",))
+        h.ops.append(("restart",))
+        return h.ops
     if h.vi >= 2 and x < 0.10:
         return c14_confirm_desired(h)
     if h.vi >= 4 and x < 0.22:
